@@ -13,7 +13,7 @@ from mc.core import Part
 from mc.models import odf
 
 MOD = "mc.props.c15"
-ALPHABET = ["", "a", "b", "a b", "a  b", " a", "a<&>\"", "ä€", "a\tb", "a\nb", "b ", "  ", "ab\n\ncd", "\nb", "\n", "b\n", "\n\ne", "\t", " \n "]
+ALPHABET = ["", "a", "b", "a b", "a  b", " a", "a<&>\"", "ä€", "a\tb", "a\nb", "b ", "  ", "ab\n\ncd", "\nb", "\n", "b\n", "\n\ne", "\t", " \n ", "a\x85\u2028\u2029b"]  # the last: line boundaries for str.splitlines(), ordinary characters for a sheet
 SMALL = ["", "a", "b", "a b", " a"]
 SWITCHES = [
     {"col_runs": True}, {"row_runs": True}, {"all_spaces_as_s": True}, {"explicit_c": True}, {"paragraphs": True}, {"span_at": 1, "spans": "head"}, {"span_at": 2, "spans": "tail"},
@@ -229,7 +229,7 @@ def run(ctx):
     faults.append({"kind": "truncate", "at": size - 1})
     ctx.pmap(MOD, "work", engine.chunks(cases, 200) + engine.chunks(faults, 60), label="C15")
     ctx.bound = {"tables": len(cases), "fault cases": len(faults), "switch subsets": "all subsets of up to %d of %d encoding features on 13 structured tables (runs, duplicate rows, whitespace, ragged and empty rows, up to 6x8)" % (switch_limit, len(SWITCHES)),
-                 "small tables": "all tables of the shapes %s over %s; all 1x1 / 1x2%s tables over the full 19-cell alphabet" % (shapes, SMALL, "" if quick else " / 2x1 / 2x2"),
+                 "small tables": "all tables of the shapes %s over %s; all 1x1 / 1x2%s tables over the full 20-cell alphabet" % (shapes, SMALL, "" if quick else " / 2x1 / 2x2"),
                  "sheets": "1..3 sheets x requested sheet 1..3 in 3 encodings", "faults": "not a zip, no content.xml, content.xml cut at every tag boundary, 7 malformed repeat counts for columns and rows, missing sheets, archive truncated at every %s byte" % ("64th" if quick else "single")}
     ctx.rule = ("every case writes a real .ods file with the independent producer (self-checked by an independent decoder) and reads it with rowio.ods_rows (and cutplace.rows for rectangular tables); "
                 "non-trivial = table with whitespace-sensitive cells or any optional feature switched on, and every fault case; states = distinct logical tables returned by the reader")
